@@ -353,10 +353,12 @@ func ddp_string_index [C12, C06]
 // (i is the function's own cursor: the byte offset of the replaced character)
 func ddp_replace_char_in_string [C12, C06, C05]
   requires wfStr(str) && validT(str)
-  requires validCp(ch) && ch != 0
+  // (a NUL cannot be stored in a Text)
+  requires ch != 0
   modifies ddprt.ddpstring, ddprt.Blk.$m, ddprt.Blk.$n
-  callsite ddp_runtime_error requires index < 1 || index > cpCount(str)
-  ensures 1 <= index && index <= old(cpCount(str))
+  // a run-time error exactly for an index outside the Text or a value that is not a character
+  callsite ddp_runtime_error requires index < 1 || index > cpCount(str) || !validCp(ch)
+  ensures 1 <= index && index <= old(cpCount(str)) && validCp(ch)
   // the Text is well-formed again: exactly cap bytes, terminated, no terminator inside
   ensures wfStr(str)
   // L: the cursor has been placed, nothing has been written yet
